@@ -206,6 +206,7 @@ def correspond(chk, run_, configs, conv_table, en_table, neg_cap, stats, by_kind
                                     'observed': b, 'schema_xml': open(c.xml).read(),
                                     'case': {'what': 'generated-guard-missing', 'member_kind': ','.join(b['writes']),
                                              'guard': b['guard']}})
+    chk.log('generated-header guard scan: %d writers' % stats['generated_writers_scanned'])
     # ---------------- (a)+(c) static TU
     static = {}
     for c in cases:
@@ -269,6 +270,7 @@ def correspond(chk, run_, configs, conv_table, en_table, neg_cap, stats, by_kind
                                         {'config': [cxx, std], 'probe': p.text, 'failed_asserts': pos, 'class': where,
                                          'member': p.member, 'schema_xml': open(c.xml).read()})
     chk.cov['distinct_nontrivial'] += len(seen_static)
+    chk.log('static probe TUs: %d, %d static_asserts' % (stats['static_tus'], stats['static_asserts']))
     # ---------------- (b) negative compilation
     njobs = []
     for c in cases:
@@ -330,6 +332,7 @@ def correspond(chk, run_, configs, conv_table, en_table, neg_cap, stats, by_kind
                                     {'config': [cxx, std], 'class': cl.where, 'member': member, 'probe': src,
                                      'first_error': fe})
     chk.cov['distinct_nontrivial'] += len(seen_neg)
+    chk.log('negative compilation pairs: %d' % stats['negative_pairs'])
     # ---------------- (d) run-time probe
     rt_cfgs = configs if not thorough else configs
     rjobs = [(c, cxx, std) for c in cases for (cxx, std) in rt_cfgs]
@@ -349,6 +352,7 @@ def correspond(chk, run_, configs, conv_table, en_table, neg_cap, stats, by_kind
                                      'compiler_output': log[-3000:], 'schema_xml': open(c.xml).read()})
             else:
                 drivers[(c.idx, cxx, std)] = exe
+    chk.log('read-only traversal drivers built: %d' % len(drivers))
     bo_of = {c.idx: c.layout['byteOrder'] for c in cases}
     reqs = []
     for c in cases:
@@ -401,7 +405,6 @@ def correspond(chk, run_, configs, conv_table, en_table, neg_cap, stats, by_kind
                                               'ro': ik.get('ro'), 'cxx': cxx, 'std': std, 'root_members': root}))
                 continue
             sts = [ik.get('rast'), ik.get('curst'), ik.get('exst')] + ik.get('ro', '').split(',')
-            size = mk['spec'].rsplit('size=', 1)[-1]
             exp_cur = W.strip_sizes(mk['spec'])
             cur = ik.get('cur', '')
             if any(s != 'ok' for s in sts) or ik.get('rosame') != '1':
@@ -410,7 +413,8 @@ def correspond(chk, run_, configs, conv_table, en_table, neg_cap, stats, by_kind
                           case={'what': 'read-only-traversal-status', 'status': ','.join(str(s) for s in sts),
                                 'cxx': cxx, 'std': std, 'root_members': root})
                 chk.report_failure(kf)
-            elif ik.get('ra') != mk['spec'] or not cur.startswith(exp_cur) or not cur.endswith(';cursor=' + size):
+            elif ik.get('ra') != mk['spec'] or not cur.startswith(exp_cur):
+                # (the cursor's end position is C04/C05 matter and is not judged here)
                 chk.report_failure(dict(rep, kind='impl≠spec', what='const-view getters return other values than the '
                                         'specification', diff=W.first_diff(ik.get('ra', ''), mk['spec']),
                                         case={'what': 'const-view-decode', 'cxx': cxx, 'std': std, 'root_members': root}))
@@ -420,6 +424,7 @@ def correspond(chk, run_, configs, conv_table, en_table, neg_cap, stats, by_kind
             if len(chk.cov['samples']) < 3:
                 chk.sample({'message': m['name'], 'driver_line': line[:160], 'answer': io[-120:]})
     chk.cov['distinct_nontrivial'] += len(seen_rt)
+    chk.log('read-only traversal requests: %d' % stats['runtime_requests'])
     # samples of compile-time probes
     for c in cases[:1]:
         _, probes, classes = static[c.idx]
